@@ -80,17 +80,6 @@ def expand (pieces : List Nat) (comp : Option Nat) : List Nat :=
 
 def pad8 (l : List Nat) : List Nat := l ++ List.replicate (8 - l.length) 0
 
-/-- the last lines of `parse_ipv6` -/
-def finC (address : List Nat) (pieceIndex : Nat) (compress : Option Nat) : Option (List Nat) :=
-  match compress with
-  | some c =>
-    let right := pieceIndex - c
-    if right > 0 then
-      let dest := 8 - right
-      if dest != c then some (moveLoop right address dest c) else some address
-    else some address
-  | none => if pieceIndex != 8 then none else some address
-
 theorem final_some (pieces : List Nat) (k : Nat) (hk : k ≤ pieces.length) (hlen : pieces.length ≤ 7) :
     finC (pad8 (expand pieces (some k))) (expand pieces (some k)).length (some (k + 1)) = V6.finish (some (pieces, some k)) := by
   match pieces, k, hk, hlen with
@@ -146,5 +135,311 @@ theorem final_none (pieces : List Nat) (hlen : pieces.length ≤ 8) :
   by_cases h8 : pieces.length = 8
   · simp [h8, pad8]
   · simp [h8]
+
+/-! ### the embedded IPv4 tail -/
+def headIsDigit (l : Bytes) : Bool := match l with | c :: _ => isDigit c | [] => false
+
+theorem dval : ∀ b : UInt8, isDigit b = true → digitVal b = b.toNat - 0x30 ∧ b.toNat - 0x30 ≤ 9 := by
+  apply forall_uint8_of_fin; decide +kernel
+
+theorem pgo_stop (f v : Nat) (t : Bytes) (h : headIsDigit t = false) : readIpv4Piece.go f v t = some (v, t) := by
+  cases f with
+  | zero => rfl
+  | succ f =>
+    cases t with
+    | nil => rfl
+    | cons c t' =>
+      have : isAsciiDigit c = false := h
+      simp [readIpv4Piece.go, this]
+
+theorem pgo_digit (f v : Nat) (c : UInt8) (t : Bytes) (hd : isAsciiDigit c = true) :
+    readIpv4Piece.go (f + 1) v (c :: t) =
+      (if v == 0 then none else if v * 10 + digitVal c > 255 then none else readIpv4Piece.go f (v * 10 + digitVal c) t) := by
+  simp [readIpv4Piece.go, hd]
+
+/-- the code's piece reader against the Standard's: same value when the piece ends after at most three digits,
+    and a fourth digit makes the Standard's reader fail -/
+theorem piece_rel (p : Bytes) :
+    (match v4Piece p with
+     | none => readIpv4Piece p = none
+     | some (v, rest) => v ≤ 255 ∧ (if headIsDigit rest then readIpv4Piece p = none else readIpv4Piece p = some (v, rest))) := by
+  unfold v4Piece
+  match p with
+  | [] => simp [readIpv4Piece]
+  | c :: p1 =>
+    by_cases hc : isDigit c = true
+    · have hca : isAsciiDigit c = true := hc
+      obtain ⟨dv0, l0⟩ := dval c hc
+      have hs : readIpv4Piece (c :: p1) = readIpv4Piece.go p1.length (digitVal c) p1 := by simp [readIpv4Piece, hca]
+      simp only [hc, Bool.not_true, Bool.false_eq_true, ↓reduceIte, hs]
+      rw [← dv0] at l0 ⊢
+      generalize digitVal c = a at l0 ⊢
+      match p1 with
+      | [] => simp [readIpv4Piece.go, headIsDigit]; omega
+      | c1 :: p2 =>
+        by_cases h1 : isDigit c1 = true
+        · have h1a : isAsciiDigit c1 = true := h1
+          obtain ⟨dv1, l1⟩ := dval c1 h1
+          simp only [h1, ↓reduceIte, List.length_cons, pgo_digit _ _ _ _ h1a]
+          rw [← dv1] at l1 ⊢
+          generalize digitVal c1 = b at l1 ⊢
+          by_cases hz : (a == 0) = true
+          · simp [hz]
+          · have hz' : a ≠ 0 := by simpa using hz
+            have hb : ¬ a * 10 + b > 255 := by omega
+            simp only [hz, Bool.false_eq_true, ↓reduceIte, hb]
+            match p2 with
+            | [] => simp [readIpv4Piece.go, headIsDigit]; omega
+            | c2 :: p3 =>
+              by_cases h2 : isDigit c2 = true
+              · have h2a : isAsciiDigit c2 = true := h2
+                obtain ⟨dv2, l2⟩ := dval c2 h2
+                simp only [h2, ↓reduceIte, List.length_cons, pgo_digit _ _ _ _ h2a]
+                rw [← dv2] at l2 ⊢
+                generalize digitVal c2 = d at l2 ⊢
+                have hnz : ((a * 10 + b) == 0) = false := by
+                  have : a * 10 + b ≠ 0 := by omega
+                  simpa using this
+                simp only [hnz, Bool.false_eq_true, ↓reduceIte]
+                by_cases hgt : (a * 10 + b) * 10 + d > 255
+                · simp [hgt]
+                · simp only [hgt, ↓reduceIte]
+                  refine ⟨by omega, ?_⟩
+                  by_cases h3 : headIsDigit p3 = true
+                  · simp only [h3, ↓reduceIte]
+                    cases p3 with
+                    | nil => simp [headIsDigit] at h3
+                    | cons c3 p4 =>
+                      have h3a : isAsciiDigit c3 = true := h3
+                      rw [List.length_cons, pgo_digit _ _ _ _ h3a]
+                      have hnz2 : (((a * 10 + b) * 10 + d) == 0) = false := by
+                        have : (a * 10 + b) * 10 + d ≠ 0 := by omega
+                        simpa using this
+                      have hb4 : ((a * 10 + b) * 10 + d) * 10 + digitVal c3 > 255 := by
+                        have : 1 ≤ a := by omega
+                        omega
+                      simp [hnz2, hb4]
+                  · have h3' : headIsDigit p3 = false := by simpa using h3
+                    simp only [h3', Bool.false_eq_true, ↓reduceIte]
+                    exact pgo_stop _ _ _ h3'
+              · have h2' : isDigit c2 = false := by simpa using h2
+                simp only [h2', Bool.false_eq_true, ↓reduceIte, headIsDigit]
+                refine ⟨by omega, ?_⟩
+                exact pgo_stop _ _ _ (by simpa [headIsDigit] using h2')
+        · have h1' : isDigit c1 = false := by simpa using h1
+          simp only [h1', Bool.false_eq_true, ↓reduceIte, headIsDigit]
+          refine ⟨by omega, ?_⟩
+          exact pgo_stop _ _ _ (by simpa [headIsDigit] using h1')
+    · have hc' : isDigit c = false := by simpa using hc
+      have hca : isAsciiDigit c = false := hc'
+      simp [hc', readIpv4Piece, hca]
+
+/-- the Standard's embedded-IPv4 reader as "n more pieces" -/
+def specRest : Nat → Bool → Bytes → Option (List Nat)
+  | 0, _, s => if s.isEmpty then some [] else none
+  | n + 1, needDot, s =>
+    match (if needDot then (match s with | 0x2E :: t => some t | _ => none) else some s) with
+    | none => none
+    | some t =>
+      match readIpv4Piece t with
+      | none => none
+      | some (v, r) => (specRest n true r).map (v :: ·)
+
+def toPair : List Nat → Option (Nat × Nat)
+  | [a, b, c, d] => some (a * 256 + b, c * 256 + d)
+  | _ => none
+
+theorem readEmbedded_rest (s : Bytes) : readEmbeddedIpv4 s = (specRest 4 false s).bind toPair := by
+  unfold readEmbeddedIpv4
+  simp only [specRest, Bool.false_eq_true, ↓reduceIte]
+  cases h1 : readIpv4Piece s with
+  | none => rfl
+  | some r1 =>
+    obtain ⟨a, s1⟩ := r1
+    simp only [↓reduceIte]
+    match s1 with
+    | [] => rfl
+    | c1 :: s1' =>
+      by_cases e1 : c1 = 0x2E
+      · subst e1
+        simp only
+        cases h2 : readIpv4Piece s1' with
+        | none => rfl
+        | some r2 =>
+          obtain ⟨b, s2⟩ := r2
+          simp only
+          match s2 with
+          | [] => rfl
+          | c2 :: s2' =>
+            by_cases e2 : c2 = 0x2E
+            · subst e2
+              simp only
+              cases h3 : readIpv4Piece s2' with
+              | none => rfl
+              | some r3 =>
+                obtain ⟨c, s3⟩ := r3
+                simp only
+                match s3 with
+                | [] => rfl
+                | c3 :: s3' =>
+                  by_cases e3 : c3 = 0x2E
+                  · subst e3
+                    simp only
+                    cases h4 : readIpv4Piece s3' with
+                    | none => rfl
+                    | some r4 =>
+                      obtain ⟨d, s4⟩ := r4
+                      simp only
+                      cases s4 with
+                      | nil => simp [toPair]
+                      | cons x xs => simp
+                  · have : (match c3 :: s3' with | 0x2E :: t => some t | _ => (none : Option Bytes)) = none := by
+                      split
+                      · rename_i heq; injection heq with e _; exact absurd e e3
+                      · rfl
+                    split
+                    · rename_i heq; injection heq with e _; exact absurd e e3
+                    · simp [this]
+            · have : (match c2 :: s2' with | 0x2E :: t => some t | _ => (none : Option Bytes)) = none := by
+                split
+                · rename_i heq; injection heq with e _; exact absurd e e2
+                · rfl
+              split
+              · rename_i heq; injection heq with e _; exact absurd e e2
+              · simp [this]
+      · have : (match c1 :: s1' with | 0x2E :: t => some t | _ => (none : Option Bytes)) = none := by
+          split
+          · rename_i heq; injection heq with e _; exact absurd e e1
+          · rfl
+        split
+        · rename_i heq; injection heq with e _; exact absurd e e1
+        · simp [this]
+
+theorem v4Piece_len (p : Bytes) (v : Nat) (rest : Bytes) (h : v4Piece p = some (v, rest)) : rest.length < p.length := by
+  match p, h with
+  | [], h => simp [v4Piece] at h
+  | [c], h =>
+    by_cases hc : isDigit c <;> simp [v4Piece, hc] at h
+    simp [h.2]
+  | [c, c1], h =>
+    by_cases hc : isDigit c <;> by_cases hc1 : isDigit c1 <;> by_cases hv : c.toNat - 48 = 0 <;> simp [v4Piece, hc, hc1, hv] at h <;> simp [h.2]
+  | c :: c1 :: c2 :: p3, h =>
+    by_cases hc : isDigit c <;> by_cases hc1 : isDigit c1 <;> by_cases hv : c.toNat - 48 = 0 <;> by_cases hc2 : isDigit c2 <;> simp [v4Piece, hc, hc1, hv, hc2] at h <;> (first | (simp [h.2]; done) | (simp [h.2]; omega))
+
+/-- the array updates of the embedded-IPv4 loop for the numbers still to come -/
+def applyNums : Nat → List Nat → List Nat → Nat → List Nat × Nat
+  | _, [], ad, pi => (ad, pi)
+  | ns, v :: l, ad, pi =>
+    let ad' := setAt ad pi ((getAt ad pi * 256 + v) % 65536)
+    let pi' := if ns + 1 == 2 || ns + 1 == 4 then pi + 1 else pi
+    applyNums (ns + 1) l ad' pi'
+
+theorem headDigit_notdot (r : Bytes) (h : headIsDigit r = true) :
+    (match r with | 0x2E :: t => some t | _ => (none : Option Bytes)) = none ∧ r ≠ [] := by
+  cases r with
+  | nil => simp [headIsDigit] at h
+  | cons c t =>
+    have hc : c ≠ 0x2E := by
+      intro e; subst e; simp [headIsDigit, isDigit] at h
+    refine ⟨?_, by simp⟩
+    split
+    · rename_i heq; injection heq with e _; exact absurd e hc
+    · rfl
+
+theorem specRest_headDigit (n : Nat) (r : Bytes) (h : headIsDigit r = true) : specRest n true r = none := by
+  obtain ⟨h1, h2⟩ := headDigit_notdot r h
+  cases n with
+  | zero => simp [specRest, h2]
+  | succ n => simp only [specRest, ↓reduceIte, h1]
+
+/-- the embedded-IPv4 loop of the code reads what the Standard's reader reads -/
+theorem v4Loop_rest (n : Nat) (f : Nat) (p : Bytes) (ns : Nat) (hns : ns + n = 4) (address : List Nat) (pi : Nat)
+    (hf : p.length < f) :
+    (v4Loop f p ns address pi).bind (fun r => if r.2.2 != 4 then none else some (r.1, r.2.1)) =
+      (specRest n (decide (ns > 0)) p).map (fun l => applyNums ns l address pi) := by
+  induction n generalizing f p ns address pi with
+  | zero =>
+    have hns4 : ns = 4 := by omega
+    subst hns4
+    cases f with
+    | zero => omega
+    | succ f =>
+      unfold v4Loop
+      cases p with
+      | nil => simp [specRest, applyNums]
+      | cons c r => simp [specRest]
+  | succ n ih =>
+    have hlt : ns < 4 := by omega
+    cases f with
+    | zero => omega
+    | succ f =>
+      unfold v4Loop
+      cases p with
+      | nil =>
+        have : (ns != 4) = true := by simp; omega
+        have hne4 : ¬ ns = 4 := by omega
+        by_cases h0 : ns > 0
+        · simp [specRest, h0, hne4]
+        · simp [specRest, h0, hne4, readIpv4Piece]
+      | cons c r =>
+        simp only [List.isEmpty_cons, Bool.false_eq_true, ↓reduceIte, specRest]
+        -- the text at which the piece starts
+        have hdot : (if ns > 0 then (if (c == 0x2E && decide (ns < 4)) = true then some r else none) else some (c :: r)) =
+            (if decide (ns > 0) = true then (match c :: r with | 0x2E :: t => some t | _ => none) else some (c :: r)) := by
+          by_cases h0 : ns > 0
+          · simp only [h0, ↓reduceIte, decide_true, hlt, Bool.and_true]
+            by_cases hc : c = 0x2E
+            · subst hc; simp
+            · have : (c == 0x2E) = false := by simpa using hc
+              simp only [this, Bool.false_eq_true, ↓reduceIte]
+              split
+              · rename_i heq; injection heq with e _; exact absurd e hc
+              · rfl
+          · simp [h0]
+        rw [hdot]
+        cases hq : (if decide (ns > 0) = true then (match c :: r with | 0x2E :: t => some t | _ => none) else some (c :: r)) with
+        | none => simp
+        | some t =>
+          have htlen : t.length ≤ (c :: r).length := by
+            by_cases h0 : ns > 0
+            · simp only [h0, decide_true, ↓reduceIte] at hq
+              split at hq
+              · rename_i heq; injection hq with hq; subst hq; injection heq with _ e; subst e; simp
+              · cases hq
+            · simp only [h0, decide_false, Bool.false_eq_true, ↓reduceIte] at hq
+              injection hq with hq; subst hq; exact Nat.le_refl _
+          simp only
+          have hrel := piece_rel t
+          cases hv : v4Piece t with
+          | none =>
+            rw [hv] at hrel
+            simp only at hrel
+            simp [hrel]
+          | some vr =>
+            obtain ⟨v, rest⟩ := vr
+            rw [hv] at hrel
+            obtain ⟨hv255, hrd⟩ := hrel
+            -- the piece consumed at least one byte
+            have hrlen : rest.length < t.length := v4Piece_len t v rest hv
+            have hih := ih f rest (ns + 1) (by omega)
+              (setAt address pi ((getAt address pi * 256 + v) % 65536))
+              (if (ns + 1 == 2 || ns + 1 == 4) = true then pi + 1 else pi) (by
+                have : (c :: r).length = r.length + 1 := rfl
+                omega)
+            simp only
+            rw [hih]
+            have hdec : decide (ns + 1 > 0) = true := by simp
+            rw [hdec]
+            by_cases hhd : headIsDigit rest = true
+            · simp only [hhd, ↓reduceIte] at hrd
+              rw [hrd, specRest_headDigit n rest hhd]
+              simp
+            · have hhd' : headIsDigit rest = false := by simpa using hhd
+              simp only [hhd', Bool.false_eq_true, ↓reduceIte] at hrd
+              rw [hrd]
+              simp only
+              cases hsr : specRest n true rest with
+              | none => simp
+              | some l => simp [applyNums]
 
 end AdaVerif.Lemmas.K6
